@@ -20,7 +20,7 @@ def run(ctx):
     rng = ctx.rng
     langs = speech_run.languages()
     cfgs = speech_run.configs(ctx, langs)
-    n_random = 6 if ctx.tier == "quick" else 120
+    n_random = 14 if ctx.tier == "quick" else 150
     oracle_fail, known, disagreements = [], [], []
     n_speech = n_lits = n_join = n_entries = 0
     nontrivial = set()
